@@ -105,11 +105,30 @@ def _dump(ctx):
 
 
 # ----------------------------------------------------------------------------- handlers
+def target_configured(cfg):
+    """the string given to the handler as `file` / `root_dir`.  cfg["target"] is a name below the scratch tree and
+    is configured as an absolute normalised path; cfg["target_raw"] (optional) is configured verbatim ("$BASE" =
+    scratch tree) and may be relative to the working directory (the check chdirs into the scratch tree), carry a
+    trailing slash or be non-normalised."""
+    raw = cfg.get("target_raw")
+    if raw is None:
+        return os.path.join(base_dir(), cfg["target"])
+    return raw.replace("$BASE", base_dir())
+
+
+def target_for_model(cfg):
+    """the models work on the absolute normalised form of the configured path"""
+    t = target_configured(cfg)
+    if cfg.get("target_raw") is None:
+        return t
+    return os.path.abspath(os.path.join(base_dir(), t))
+
+
 def config_dict(cfg, template_cache=True):
     """cfg: dict(rpath, filemode, target (relative to the scratch tree), suffix, key, ph (None = default),
     cont, ign, template, tpre, tsuf)"""
     d = {"request_path": cfg["rpath"]}
-    target = os.path.join(base_dir(), cfg["target"])
+    target = target_configured(cfg)
     if cfg["filemode"]:
         d["file"] = target
     else:
@@ -138,7 +157,7 @@ def config_dict(cfg, template_cache=True):
 
 def cfg_sx(cfg):
     """the configuration as the models read it (target absolute)"""
-    return [cfg["rpath"], bool(cfg["filemode"]), os.path.join(base_dir(), cfg["target"]), cfg.get("suffix") or "",
+    return [cfg["rpath"], bool(cfg["filemode"]), target_for_model(cfg), cfg.get("suffix") or "",
             cfg.get("key") or "", PH_DEFAULT if cfg.get("ph") is None else cfg["ph"], bool(cfg.get("cont")),
             bool(cfg.get("ign")), bool(cfg.get("template"))]
 
